@@ -65,6 +65,52 @@ theorem C17_no_panic_ids (h : Nat → Tick) (k : Nat) :
     intro l _
     exact verdictOf_id _ _ l
 
+/-- **The fair-share divisor is never 0.** The model's `250 / connectedCount` and `750 / connectedCount`
+are `Nat` divisions (total in Lean: `x / 0 = 0`), whereas the Rust `ENTER_FAIR_SHARE_NUMERATOR /
+n_connected` on `u32` would PANIC on a zero divisor.  Whenever the classified branch is taken
+(`bypass t = false`) the divisor is `≥ 1`: the bypass test returns first when `connected_count == 0`.
+Hence the model's total division and the Rust division agree wherever the Rust one is evaluated, and
+the thresholds are the floors `⌊250/n⌋ ≤ 250`, `⌊750/n⌋ ≤ 750` with `n ≥ 1` (so `n = 4` gives 62 and
+187 — the leave threshold is 187 permille, not 187.5). -/
+theorem C17_fair_share_divisor_pos (t : Tick) (hb : bypass t = false) :
+    connectedCount t ≠ 0 ∧ 1 ≤ connectedCount t ∧
+    enterThr t = 250 / connectedCount t ∧ leaveThr t = 750 / connectedCount t ∧
+    enterThr t ≤ 250 ∧ leaveThr t ≤ 750 ∧
+    (connectedCount t = 4 → enterThr t = 62 ∧ leaveThr t = 187) := by
+  have hn : connectedCount t ≠ 0 := by
+    intro h0
+    simp [bypass, h0] at hb
+  have hE : enterThr t = 250 / connectedCount t := by simp [enterThr]
+  have hL : leaveThr t = 750 / connectedCount t := by simp [leaveThr]
+  refine ⟨hn, by omega, hE, hL, ?_, ?_, ?_⟩
+  · rw [hE]; exact Nat.div_le_self _ _
+  · rw [hL]; exact Nat.div_le_self _ _
+  · intro h4; rw [hE, hL, h4]; exact ⟨rfl, rfl⟩
+
+/-- History form: every verdict that is not `Bypassed` for a CONNECTED link — in particular every weak
+verdict — was computed with a non-zero divisor (the only place the division is evaluated is
+`stepOf`, i.e. a connected link of a non-bypassed tick). -/
+theorem C17_fair_share_divisor_pos_run (h : Nat → Tick) (k : Nat) (l : LinkIn)
+    (hv : (verdictAt h k l).reason ≠ .Bypassed) : connectedCount (h k) ≠ 0 := by
+  have hb : bypass (h k) = false := by
+    cases hb : bypass (h k)
+    · rfl
+    · exfalso; apply hv; unfold verdictAt verdictOf; simp [hb]
+  exact (C17_fair_share_divisor_pos (h k) hb).1
+
+/-- Non-vacuity.  A concrete `t` with `bypass t = false` cannot be exhibited inside Lean (`bypass`
+compares an f64 sum with `100000.0`, and `Float` comparison is opaque to the kernel); on the real code
+the branch is counted by the harness (`tick:classified`).  What can be shown in Lean: the
+contrapositive on a concrete tick — an empty slice has `connectedCount = 0`, hence is bypassed — and
+that the hypothesis follows from any weak verdict (`verdictOf_weak_classified`). -/
+example : connectedCount [] = 0 ∧ bypass [] = true := by
+  refine ⟨rfl, ?_⟩
+  simp [bypass, connectedCount]
+
+example (s : State) (t : Tick) (l : LinkIn) (hw : (verdictOf s t l).weak = true) :
+    connectedCount t ≠ 0 :=
+  (C17_fair_share_divisor_pos t (verdictOf_weak_classified hw).1).1
+
 /-! ## Never weak while disconnected -/
 
 theorem C17_not_weak_when_disconnected (h : Nat → Tick) (k : Nat) (l : LinkIn)
